@@ -6,10 +6,12 @@ From PG Require Import Lib.Num Lib.Py Lib.Show Gen.CharactGen Charact.Ols Charac
 Import ListNotations.
 Open Scope Z_scope.
 
-(* Carrier for execution: rationals, with the common power of two of numerator and denominator removed after every operation.
-   The implementation's numbers are binary64 values (dyadic rationals): sums and products of them stay compact this way
-   (plain Qplus multiplies the denominators: a 60-point regression reaches 10^5-bit numbers), and the stripping costs a scan of
-   the low bits only (Qred's gcd costs ~25 ms per value). Same definitions as for RNum / DNum, different record of operations. *)
+(* Carrier for execution: binary floating point with a 256-bit mantissa, represented as rationals m / 2^k.
+   The implementation's numbers are binary64 values; the transforms divide (p / (n (1 - p))), so exact rational arithmetic
+   makes a 50-point regression reach 10^5..10^6-bit numbers (measured: > 60 s per case). Here every operation is computed
+   exactly and then rounded (towards -infinity) to 256 significant bits: relative error 2^-256 per operation, against a
+   comparison tolerance of 1e-7. Sums and products of the (53-bit) inputs themselves are exact, so the window decisions
+   (pressure against limit, successive n(1-p)) are exact. Same model definitions as for RNum / QNum, different record. *)
 Fixpoint strip2 (a b : positive) : positive * positive :=
   match a, b with xO a', xO b' => strip2 a' b' | _, _ => (a, b) end.
 Definition norm2 (q : Q) : Q :=
@@ -17,9 +19,24 @@ Definition norm2 (q : Q) : Q :=
   | Z0 => 0%Q
   | Zpos a => let '(a', d') := strip2 a (Qden q) in (Zpos a' # d')%Q
   | Zneg a => let '(a', d') := strip2 a (Qden q) in (Zneg a' # d')%Q end.
+Definition pow2 (k : Z) : positive := Pos.shiftl 1 (Z.to_N k).
+(* q = n / 2^k (results of + - * on rounded values): keep the 256 leading bits of n *)
+Definition rnd_dy (q : Q) : Q :=
+  match Qnum q with
+  | Z0 => 0%Q
+  | n => let sh := Z.log2 (Z.abs n) - 256 in
+         if sh <=? 0 then norm2 q else
+         let k := Z.log2 (Zpos (Qden q)) in
+         if sh <=? k then norm2 (Z.shiftr n sh # pow2 (k - sh))%Q else (Z.shiftl (Z.shiftr n sh) (sh - k) # 1)%Q end.
+(* any rational (results of / and the literals): quotient to 256 significant bits *)
+Definition rnd (q : Q) : Q :=
+  match Qnum q with
+  | Z0 => 0%Q
+  | n => let s := Z.max 0 (256 + Z.log2 (Zpos (Qden q)) - Z.log2 (Z.abs n)) in
+         norm2 (Z.shiftl n s / Zpos (Qden q) # pow2 s)%Q end.
 Definition DNum : Num :=
-  mkNum Q norm2 (fun a b => norm2 (a + b)%Q) (fun a b => norm2 (a - b)%Q) (fun a b => norm2 (a * b)%Q) (fun a b => norm2 (a / b)%Q)
-        Qopp (fun a => norm2 (/ a)%Q) Qeq_bool Qltb Qle_bool.
+  mkNum Q rnd (fun a b => rnd_dy (a + b)%Q) (fun a b => rnd_dy (a - b)%Q) (fun a b => rnd_dy (a * b)%Q) (fun a b => rnd (a / b)%Q)
+        Qopp (fun a => rnd (/ a)%Q) Qeq_bool Qltb Qle_bool.
 
 (* square root to 20 decimal digits (only bet_parameters' p_monolayer needs it) *)
 Definition qsqrt (q : Q) : Q :=
@@ -108,3 +125,20 @@ Definition da_case (tn td : Z) (p : list (Z * Z)) (use blo bhi : bool) (lo hi : 
                              && close_ra tn td 1 1000000000 (rsq f) (rr * rr)
                              && (Z.of_nat (length xs) =? snd w + 1 - fst w)), fst w, snd w)
     | _ => (0, 0, 0, 0) end end.
+
+(* ---- mesopore PSD: the implementation's thickness / Kelvin arrays come in as data; everything else is the model *)
+From PG Require Import Charact.PsdMeso.
+Open Scope Z_scope.
+Fixpoint all_close_ra (tn td : Z) (atol : Q) (qs : list Q) (ps : list (Z * Z)) : bool :=
+  match qs, ps with
+  | [], [] => true
+  | q :: qr, x :: pr => (close_q tn td q (flq x) || Qle_bool (Qabs (q - flq x)) atol) && all_close_ra tn td atol qr pr
+  | _, _ => false end.
+Definition psd_case (tn td : Z) (method g : string) (p vol thick kr : list (Z * Z)) (use blo bhi : bool) (lo hi : Z * Z) (oc : Z)
+           (widths areas volumes dist cumul : list (Z * Z)) (atv ata atd : Z * Z) : Z * Z * Z * Z :=
+  match psd_mesoporous DNum method g (mkfl p) (mkfl vol) (mkfl thick) (mkfl kr) (lims use blo bhi lo hi) with
+  | Err e => (exn_code e, b2z (oc =? exn_code e), 0, 0)
+  | Ok (r, cum, w) =>
+      (0, b2z ((oc =? 0) && all_close tn td (p_widths r) widths && all_close_ra tn td (flq ata) (p_areas r) areas
+               && all_close_ra tn td (flq atv) (p_volumes r) volumes && all_close_ra tn td (flq atd) (p_dist r) dist
+               && all_close_ra tn td (flq atv) cum cumul), fst w, snd w) end.
